@@ -10,16 +10,22 @@ func fatal(err error) {
 	os.Exit(2)
 }
 
+// translators register themselves: `func init() { translators["name"] = fn }`
+// (fn(repo, out string)); helpers shared by all: printNode, coqStr, parseDir,
+// constValues, recvName in codec.go.
+var translators = map[string]func(repo, out string){
+	"codec": xlateCodec,
+}
+
 func main() {
 	if len(os.Args) < 4 {
-		fmt.Fprintln(os.Stderr, "usage: xlate <codec|...> <repo> <out.v>")
+		fmt.Fprintln(os.Stderr, "usage: xlate <translator> <repo> <out.v>")
 		os.Exit(2)
 	}
-	switch os.Args[1] {
-	case "codec":
-		xlateCodec(os.Args[2], os.Args[3])
-	default:
+	f, ok := translators[os.Args[1]]
+	if !ok {
 		fmt.Fprintln(os.Stderr, "unknown translator", os.Args[1])
 		os.Exit(2)
 	}
+	f(os.Args[2], os.Args[3])
 }
